@@ -2951,10 +2951,12 @@ fn write_reference_immediately(
 
 /// Compute reverse complement of a sequence
 fn reverse_complement_sequence(seq: &[u8]) -> Vec<u8> {
-    use crate::kmer::reverse_complement;
+    // Codes >= 4 (N and the other IUPAC ambiguity codes) have no complement here: keep them,
+    // exactly as the worker's precomputed data_rc and the decompressor do. Mapping them to 4
+    // turned every ambiguity code of a re-oriented split half into N.
     seq.iter()
         .rev()
-        .map(|&base| reverse_complement(base as u64) as u8)
+        .map(|&base| if base < 4 { 3 - base } else { base })
         .collect()
 }
 
